@@ -112,6 +112,51 @@ fn check_input(h: &History, nodes: &[usize], deviations: usize, t: &mut Tally) -
             out.push(("nondeterministic-repeat".into(), format!("{base:?} then {again:?}")));
         }
     }
+    // whichever thread: the same call on a thread that has never resolved anything (the worker thread this
+    // runs on has resolved thousands of other histories that reuse the same event IDs with other contents)
+    {
+        let fresh = std::thread::scope(|sc| {
+            sc.spawn(|| {
+                let mut t2 = Tally::new();
+                run(&inp, &ident, &ident, &[], &mut t2).map(|x| x.0)
+            })
+            .join()
+        });
+        t.transitions += 1;
+        match fresh {
+            Ok(Ok(o)) => {
+                if o != base {
+                    out.push(("thread-dependence/fresh-thread".into(), format!("on a long-lived worker thread {base:?}, on a fresh thread {o:?}")));
+                }
+            }
+            Ok(Err(e)) => out.push(("panic/resolve-fresh-thread".into(), e)),
+            Err(_) => out.push(("panic/resolve-fresh-thread".into(), "the fresh thread panicked".into())),
+        }
+    }
+    // an empty state set (a server that knows nothing about the room) among the others, in every position
+    if k == 2 {
+        let mut with_empty = Input { h, sets: inp.sets.clone(), chains: inp.chains.clone() };
+        with_empty.sets.push(SMap::new());
+        with_empty.chains.push(BTreeSet::new());
+        let mut first: Option<(Vec<usize>, Outcome)> = None;
+        // the empty set last, in the middle, first
+        for p in [vec![0usize, 1, 2], vec![0, 2, 1], vec![2, 0, 1]] {
+            match run(&with_empty, &p, &p, &[], t) {
+                Ok((o, _)) => match &first {
+                    None => first = Some((p.clone(), o)),
+                    Some((p0, o0)) if *o0 != o => {
+                        out.push((
+                            "argument-order/with-empty-set".into(),
+                            format!("sets + one empty set, arranged {p0:?}: {o0:?}; arranged {p:?}: {o:?}"),
+                        ));
+                        break;
+                    }
+                    _ => {}
+                },
+                Err(e) => out.push(("panic/resolve-with-empty-set".into(), e)),
+            }
+        }
+    }
     // (P) argument permutations: joint, and chains permuted independently
     for p in permutations(k) {
         for q in [p.clone(), ident.clone(), p.iter().rev().cloned().collect::<Vec<_>>()] {
@@ -245,6 +290,15 @@ fn replay(case: &Value) -> Vec<(String, String)> {
     check_input(&h, &nodes, 2, &mut Tally::new())
 }
 
+/// records the wall time of one pass when it goes out of scope (the pass loop has several exits)
+struct PassTimer(*mut Vec<f64>, std::time::Instant);
+impl Drop for PassTimer {
+    fn drop(&mut self) {
+        // SAFETY: the vector outlives every guard (declared before the loop) and is only touched here
+        unsafe { (*self.0).push((self.1.elapsed().as_secs_f64() * 10.0).round() / 10.0) }
+    }
+}
+
 fn main() {
     let args = parse_args();
     if let Some(p) = &args.replay {
@@ -268,10 +322,13 @@ fn main() {
             (3, 3, 1, creator_templates.clone(), vec!['E']),
             (2, 3, 1, all_templates.clone(), ab.clone()),
             (1, 3, 2, all_templates.clone(), ab.clone()),
-            (3, 2, 1, power_templates.clone(), ab.clone()),
+            (3, 2, 1, power_templates.clone(), vec!['A']),
             (2, 2, 1, all17.clone(), vec!['C']),
             // a moderator's join rule that a knock cites (so it sits in the auth chains), later join rules by creator / moderator
             (3, 2, 0, vec![17, 18, 7, 19], vec!['A']),
+            // every auth_events list in the opposite order (power levels before the create event)
+            (2, 2, 1, power_templates.clone(), vec!['a', 'b']),
+            (2, 3, 1, creator_templates.clone(), vec!['e']),
         ],
         // cheapest first, so that the wall cap (if it is ever hit) cuts only the last pass
         Tier::Thorough => vec![
@@ -281,13 +338,15 @@ fn main() {
             (2, 3, 2, all17.clone(), vec!['C']),
             (3, 2, 1, vec![0, 1, 3, 4, 6, 7, 9, 10], ab.clone()),
             (4, 3, 1, vec![17, 18, 7, 19, 9], vec!['A']),
+            (3, 2, 1, power_templates.clone(), vec!['a', 'b']),
+            (3, 3, 1, creator_templates.clone(), vec!['e', 'd']),
         ],
     };
     report.set_rule(&format!(
         "passes (history depth, max state sets, deviation bound, templates, base rooms) = {passes:?}. inputs: every room history reachable by appending <= depth events \
          (14 templates x prev subsets x timestamp equal/later) to the pass's base rooms (A with power levels, B without, C = A plus an abandoned merged power-levels fork, all room version 11; D / E = A / B with the create event sent by the moderator while content.creator is the creator, room version 10), and every subset of 2..=max nodes containing \
          the newest node. For each input: repeat call; every permutation of the state-set list with the auth-chain list permuted jointly, left in \
-         place and reversed; 1-3 identical copies of one set must come back unchanged; for two conflicting sets also every arrangement of [S0,S0,S1] and [S1,S1,S0] (one result per collection); deviation-bounded DFS over the iteration order of every hash \
+         place and reversed; 1-3 identical copies of one set must come back unchanged; for two conflicting sets also every arrangement of [S0,S0,S1] and [S1,S1,S0] (one result per collection); every arrangement of the sets plus one empty set; the same call on a fresh thread; deviation-bounded DFS over the iteration order of every hash \
          container resolve iterates (hook verif_order): all-default run, then every combination of <= bound deviations over the choice points \
          (all n! orders for n<=4, else reverse + adjacent swaps + rotations). Oracle: result == all-default result. state = one history; \
          transition = one real resolve call under a script; non-trivial = input with conflicting state sets"
@@ -297,10 +356,13 @@ fn main() {
     report.require_outcomes("input", 1);
     report.require_outcomes("choice-points", 2);
 
+    let mut pass_wall: Vec<f64> = vec![];
     for (depth, max_k, deviations, templates, bases) in passes.iter().cloned() {
+        let pass_start = std::time::Instant::now();
+        let _guard = PassTimer(&mut pass_wall as *mut Vec<f64>, pass_start);
         let mut shards: Vec<(char, Action)> = vec![];
         for &with_pl in &bases {
-            let h = History::base_kind(if matches!(with_pl, 'D' | 'E') { 10 } else { 11 }, with_pl);
+            let h = History::base_kind(if matches!(with_pl, 'D' | 'E' | 'd' | 'e') { 10 } else { 11 }, with_pl);
             for a in h.actions(&templates, &[1, 2]) {
                 shards.push((with_pl, a));
             }
@@ -312,7 +374,7 @@ fn main() {
         let prefixes = std::sync::Mutex::new(Vec::<(char, Action, Action)>::new());
         par_shards(&report, shards.len(), |i, t| {
             let (with_pl, a) = shards[i];
-            let h = History::base_kind(if matches!(with_pl, 'D' | 'E') { 10 } else { 11 }, with_pl);
+            let h = History::base_kind(if matches!(with_pl, 'D' | 'E' | 'd' | 'e') { 10 } else { 11 }, with_pl);
             if let Some(next) = h.apply(a) {
                 ex1.visit(&next, t);
                 if split {
@@ -332,7 +394,7 @@ fn main() {
             let ex = Explorer { report: &report, templates: templates.clone(), depth, max_k, deviations };
             par_shards(&report, prefixes.len(), |i, t| {
                 let (with_pl, a, b) = prefixes[i];
-                let h = History::base_kind(if matches!(with_pl, 'D' | 'E') { 10 } else { 11 }, with_pl);
+                let h = History::base_kind(if matches!(with_pl, 'D' | 'E' | 'd' | 'e') { 10 } else { 11 }, with_pl);
                 if let Some(h2) = h.apply(a).and_then(|h1| h1.apply(b)) {
                     ex.visit(&h2, t);
                 }
@@ -341,5 +403,6 @@ fn main() {
     }
     report.set("passes_depth_sets_deviations_templates", json!(passes));
     report.set("deviation_bound_completed", json!(passes.iter().map(|p| p.2).max()));
+    report.set("pass_wall_s", json!(pass_wall));
     report.finish()
 }
